@@ -117,6 +117,9 @@ func c12Model(r *xrand.Rand, maxTypes, maxDepth int) (*gen.Model, string) {
 			uid++
 			sc.Props = append(sc.Props, &gen.SProp{Key: fmt.Sprintf("@K%d", i), KeyRef: true, Node: &gen.SNode{Kind: "int", Val: fmt.Sprint(uid)}})
 			keyTypes = append(keyTypes, &gen.Block{Kind: "type", Name: fmt.Sprintf("@K%d", i), Notation: "jsight", Schema: &gen.SNode{Kind: "string", Val: fmt.Sprintf("key%d", i)}})
+			if r.Bool() { // ... and a property whose literal key has the same text: two different properties
+				sc.Props = append(sc.Props, &gen.SProp{Key: fmt.Sprintf("@K%d", i), Node: &gen.SNode{Kind: "string", Val: fmt.Sprintf("lit%d", i)}})
+			}
 		}
 		if r.Chance(1, 4) && i > 0 { // a nested object with its own allOf
 			nb := pickBases(i, false)
@@ -308,9 +311,10 @@ func c12Eval(t *fw.T, c *fw.Case) {
 			if b.Kind != "type" || len(b.Schema.Props) == 0 {
 				continue
 			}
+			// (the same kind of key: "@k" and @k are different properties)
 			key := b.Schema.Props[0].Key
 			fm.Blocks = append(fm.Blocks, &gen.Block{Kind: "type", Name: "@Over", Notation: "jsight",
-				Schema: &gen.SNode{Kind: "object", AllOf: []string{b.Name}, Props: []*gen.SProp{{Key: key, Node: &gen.SNode{Kind: "int", Val: "1"}}}}})
+				Schema: &gen.SNode{Kind: "object", AllOf: []string{b.Name}, Props: []*gen.SProp{{Key: key, KeyRef: b.Schema.Props[0].KeyRef, Node: &gen.SNode{Kind: "int", Val: "1"}}}}})
 		case "non-object-base":
 			fm.Blocks = append(fm.Blocks, &gen.Block{Kind: "type", Name: "@Scalar", Notation: "jsight", Schema: &gen.SNode{Kind: "int", Val: "5"}},
 				&gen.Block{Kind: "type", Name: "@UsesScalar", Notation: "jsight", Schema: &gen.SNode{Kind: "object", AllOf: []string{"@Scalar"}, Props: []*gen.SProp{{Key: "own", Node: &gen.SNode{Kind: "int", Val: "1"}}}}})
